@@ -223,6 +223,7 @@ Ltac saturate :=
          end.
 
 Ltac fin :=
+  repeat match goal with H : PDtor _ = PDtor _ |- _ => injection H as H end;
   simpl in *; try discriminate; try congruence; try lia; try tauto; eauto.
 
 Ltac split_hyps :=
@@ -261,3 +262,224 @@ Proof. intros L H. destruct (ipc x) eqn:E; loc_tac L. Qed.
 Lemma loc1_dtor_progress g nr nn dp del dp' del' d j x :
   loc1 g nr nn dp del (Some d) j x -> j <> d -> loc1 g nr nn dp' del' (Some d) j x.
 Proof. intros L H. destruct (ipc x) eqn:E; loc_tac L. Qed.
+
+(* ---- layer 1: preservation ---------------------------------------------------------------------- *)
+
+Ltac count_tac Hx :=
+  match goal with
+  | |- context [cnt xended (upd ?i ?f ?l)] =>
+      let Hc := fresh "Hc" in
+      pose proof (cnt_xended_upd i f l _ Hx) as Hc; simpl in Hc; rew_fields; simpl in *;
+      case_ifs; try discriminate; lia
+  end.
+
+(* other inputs: by one of the frame lemmas *)
+Ltac other Iloc j y Hj :=
+  first [ exact (Iloc j y Hj)
+        | apply loc1_nreg; [exact (Iloc j y Hj)|assumption]
+        | match goal with Hd : dt _ = None |- _ =>
+            eapply loc1_dt_set; [rewrite <- Hd; exact (Iloc j y Hj)|assumption] end
+        | match goal with Hd : dt _ = Some _ |- _ =>
+            rewrite ?Hd; eapply loc1_dtor_progress; [rewrite <- Hd; exact (Iloc j y Hj)|assumption] end ].
+
+Ltac perinput Iloc i x Hx :=
+  let j := fresh "j" in let y := fresh "y" in let Hj := fresh "Hj" in let L := fresh "L" in
+  intros j y Hj; unfold L1; simpl; rewrite nth_upd in Hj; destruct (Nat.eqb_spec j i) as [->|Hne];
+  [ rewrite Hx in Hj; simpl in Hj; inv Hj; pose proof (Iloc i x Hx) as L; unfold L1 in L; loc_tac L
+  | other Iloc j y Hj ].
+
+Ltac I1_tac I i x Hx :=
+  let Il := fresh "Il" in let In := fresh "In" in let Iloc := fresh "Iloc" in let Ic := fresh "Ic" in
+  let Id0 := fresh "Id0" in let Id1 := fresh "Id1" in
+  destruct I as [Il In Iloc Ic Id0 Id1];
+  pose proof (nth_lt _ _ _ Hx) as Hlt;
+  constructor; simpl;
+  [ try (rewrite upd_length); assumption
+  | try lia
+  | try (perinput Iloc i x Hx)
+  | try (count_tac Hx)
+  | try (intros Hd; saturate; fin)
+  | try (intros d Hd; match type of Hd with Some _ = Some _ => inv Hd | _ => destruct (Id1 _ Hd) end;
+         saturate; repeat split; fin) ].
+
+Ltac start H i x Hx :=
+  simpl in H; destruct (nth_error (ins _) i) as [x|] eqn:Hx; [|discriminate].
+
+Ltac begin_cases s x :=
+  unfold begin; simpl;
+  try (destruct (begin_pc_cases (sg s) (ires x)) as [(Hb & Hb1)|[(Hb & Hb1)|(Hb & Hb1 & Hb2 & Hb3)]];
+       simpl in Hb; rewrite Hb).
+
+(* I1 reads only these fields *)
+Lemma I1_ext s s' :
+  sg s' = sg s -> n s' = n s -> ins s' = ins s -> nreg s' = nreg s -> count s' = count s ->
+  dt s' = dt s -> dprog s' = dprog s -> deleted s' = deleted s -> I1 s -> I1 s'.
+Proof.
+  intros E1 E2 E3 E4 E5 E6 E7 E8 [Il In Iloc Ic Id0 Id1].
+  constructor; unfold L1 in *; rewrite ?E1, ?E2, ?E3, ?E4, ?E5, ?E6, ?E7, ?E8; auto.
+Qed.
+
+Ltac by_ext s0 := apply I1_ext with s0; [reflexivity..|].
+
+Lemma I1_complete s i r s' : I1 s -> step s (EComplete i r) = Some s' -> I1 s'.
+Proof.
+  intros I H. start H i x Hx. case_step H; inv H.
+  all: assert (Hp : ipc x = PIdle) by (eapply loc1_idle_w; [apply (i_loc _ I _ _ Hx)|congruence]).
+  all: I1_tac I i x Hx.
+Qed.
+
+Lemma I1_xchg s i old s' : I1 s -> step s (EXchg i old) = Some s' -> I1 s'.
+Proof.
+  intros I H. start H i x Hx.
+  destruct (word_eqb old (iw x)) eqn:E; [apply word_eqb_eq in E; subst old|discriminate].
+  case_step H; inv H.
+  all: assert (Hp : ipc x = PIdle) by (eapply loc1_idle_w; [apply (i_loc _ I _ _ Hx)|congruence]).
+  all: begin_cases s x.
+  all: I1_tac I i x Hx.
+Qed.
+
+Lemma I1_reg s i ok s' : I1 s -> step s (EReg i ok) = Some s' -> I1 s'.
+Proof.
+  intros I H. simpl in H. destruct (Nat.eqb_spec i (nreg s)) as [->|]; [|discriminate].
+  destruct (nth_error (ins s) (nreg s)) as [x|] eqn:Hx; [|discriminate].
+  case_step H; inv H.
+  all: assert (Hp : ipc x = PIdle) by (eapply loc1_idle_reg; [apply (i_loc _ I _ _ Hx)|lia]).
+  all: begin_cases s x.
+  all: I1_tac I (nreg s) x Hx.
+Qed.
+
+Lemma rd_ofailing x : ofailing (rd x) = true -> ofailing (ires x) = true.
+Proof. unfold rd. destruct (ifree x =? 0); simpl; auto; discriminate. Qed.
+
+Lemma I1_store_slot i r s : I1 s -> I1 (store_slot i r s).
+Proof.
+  intros I. unfold store_slot. destruct (sg s) eqn:E; auto; try destruct (ovalue r); auto.
+  all: by_ext s; auto.
+Qed.
+
+Lemma I1_free s i s' : I1 s -> step s (EFree i) = Some s' -> I1 s'.
+Proof.
+  intros I H. start H i x Hx. case_step H; inv H.
+  apply I1_store_slot.
+  destruct (strat_entry_cases (sg s) (rd x)) as [Hb|(Hb & Hb2 & Hb3)]; rewrite Hb;
+    try (assert (Hb4 : is_ff (sg s) = true -> ofailing (ires x) = true) by (intros; apply rd_ofailing; auto); clear Hb3).
+  all: I1_tac I i x Hx.
+Qed.
+
+(* a step inside Strategy::Consume *)
+Lemma I1_goto_mid s i x p :
+  I1 s -> nth_error (ins s) i = Some x ->
+  (ipc x = PStrat \/ ipc x = PRmw \/ ipc x = PSet) -> (p = PRmw \/ p = PSet \/ p = PDec) ->
+  I1 (goto i p x s).
+Proof.
+  intros I Hx Hp Hq. unfold goto.
+  destruct Hp as [Hp|[Hp|Hp]]; destruct Hq as [->|[->| ->]]; I1_tac I i x Hx.
+Qed.
+
+Ltac mid I Hx := apply I1_goto_mid; [exact I|exact Hx|auto|auto].
+
+Lemma I1_strategy_steps s e s' :
+  I1 s -> step s e = Some s' ->
+  match e with
+  | ELdDone _ _ | EXchgDone _ _ | ELdState _ _ | EXchgState _ _ | ECasState _ _ | ESubState _ _ | ESetOut _ => True
+  | _ => False
+  end -> I1 s'.
+Proof.
+  intros I H He. destruct e; try contradiction; clear He.
+  all: start H i x Hx; case_step H; inv H.
+  all: unfold elected, logged, goto.
+  all: match goal with Hx : nth_error (ins ?s0) ?i = Some ?x |- I1 ?t =>
+         match t with context [with_ipc ?p x] => by_ext (goto i p x s0); mid I Hx end end.
+Qed.
+
+Lemma I1_dec s i old s' : I1 s -> step s (EDec i old) = Some s' -> I1 s'.
+Proof.
+  intros I H. start H i x Hx. case_step H; inv H.
+  all: apply Nat.eqb_eq in Heqb.
+  - (* last reference: the destructor starts *)
+    assert (Hdn : dt s = None).
+    { destruct (dt s) eqn:E; auto. destruct (i_dt_some _ I _ E). lia. }
+    destruct (i_dt_none _ I Hdn) as (Hdel & Hdp & _).
+    assert (Hn : 0 < n s) by (rewrite <- (i_len _ I); eapply Nat.le_lt_trans; [apply Nat.le_0_l|eapply nth_lt; eauto]).
+    unfold dtor_entry. destruct (sg s) eqn:Esg; simpl; try destruct (pvalid s); simpl.
+    all: unfold goto; I1_tac I i x Hx.
+  - assert (Hdn : dt s = None).
+    { destruct (dt s) eqn:E; auto. destruct (i_dt_some _ I _ E). lia. }
+    unfold goto; I1_tac I i x Hx.
+Qed.
+
+Lemma I1_with_ifree s k y v : I1 s -> nth_error (ins s) k = Some y -> I1 (set_in k (with_ifree v y) s).
+Proof.
+  intros [Il In Iloc Ic Id0 Id1] Hy. constructor; simpl; auto.
+  - rewrite upd_length; auto.
+  - intros j z Hj. rewrite nth_upd in Hj. destruct (Nat.eqb_spec j k) as [->|Hne].
+    + rewrite Hy in Hj. simpl in Hj. inv Hj. pose proof (Iloc k y Hy) as L. unfold L1 in *. simpl.
+      destruct L; constructor; auto.
+    + exact (Iloc j z Hj).
+  - pose proof (cnt_xended_upd k (fun _ => with_ifree v y) (ins s) y Hy) as Hc. simpl in Hc.
+    destruct (ended (ipc y)); lia.
+Qed.
+
+Lemma I1_dfree s i k s' : I1 s -> step s (EDFree i k) = Some s' -> I1 s'.
+Proof.
+  intros I H. unfold step in H. destruct (nth_error (ins s) i) as [x|] eqn:Hx; [|discriminate].
+  destruct (ipc x) as [| | | | | |k'| |] eqn:Hp; try discriminate.
+  destruct (Nat.eqb_spec k k') as [Ek|]; [subst k'|discriminate].
+  destruct (nth_error (ins s) k) as [y|] eqn:Hy; [|discriminate].
+  remember (match sg s with SAllNone => true | _ => pvalid s end) as collect eqn:Hcol.
+  remember (S k =? n s) as last eqn:Hlast.
+  set (s1 := set_in k (with_ifree (S (ifree y)) y) s) in *.
+  assert (I1s : I1 s1) by (apply I1_with_ifree; auto).
+  destruct (l_pdk _ _ _ _ _ _ _ _ (i_loc _ I _ _ Hx) _ Hp) as (Hown & Hk & Hdp).
+  assert (Hdt : dt s = Some i) by (apply (l_pdtor _ _ _ _ _ _ _ _ (i_loc _ I _ _ Hx)); rewrite Hp; reflexivity).
+  cbv zeta in H.
+  match type of H with match ?t with _ => _ end = _ => destruct t as [x'|] eqn:Hx' end; [|discriminate].
+  assert (Hx1 : nth_error (ins s1) i = Some x') by (destruct collect; exact Hx').
+  assert (Hp' : ipc x' = PDtor k).
+  { unfold s1 in Hx1. simpl in Hx1. rewrite nth_upd in Hx1. destruct (Nat.eqb_spec i k) as [->|].
+    - rewrite Hy in Hx1. simpl in Hx1. inv Hx1. simpl. congruence.
+    - congruence. }
+  assert (Hdt1 : dt s1 = Some i) by exact Hdt.
+  injection H as Hs'. subst s'.
+  set (p := if last then if collect then PPub else PFin else PDtor (S k)).
+  apply I1_ext with (finish_if_fin p (goto i p x' (set_dprog (S k) s1))).
+  1-8: subst p; destruct last, collect; reflexivity.
+  assert (Hdel : deleted s1 = 0).
+  { destruct (l_dt _ _ _ _ _ _ _ _ (i_loc _ I1s _ _ Hx1) Hdt1) as (_ & Hd & _). rewrite Hp' in Hd. exact Hd. }
+  assert (Hdel' : deleted s = 0) by exact Hdel.
+  assert (Hdp1 : dprog s1 = k) by exact Hdp.
+  assert (Hn1 : n s1 = n s) by reflexivity.
+  assert (Hown1 : owned (sg s1) = true) by exact Hown.
+  subst p. destruct last; [symmetry in Hlast; apply Nat.eqb_eq in Hlast; destruct collect
+                          |symmetry in Hlast; apply Nat.eqb_neq in Hlast]; simpl.
+  all: clearbody s1; unfold goto; I1_tac I1s i x' Hx1.
+Qed.
+
+Lemma I1_publish s i s' : I1 s -> step s (EPublish i) = Some s' -> I1 s'.
+Proof.
+  intros I H. start H i x Hx. case_step H; inv H.
+  assert (Hdt : dt s = Some i) by (apply (l_pdtor _ _ _ _ _ _ _ _ (i_loc _ I _ _ Hx)); rewrite Heqp; reflexivity).
+  destruct (l_dt _ _ _ _ _ _ _ _ (i_loc _ I _ _ Hx) Hdt) as (_ & Hdel & _). rewrite Heqp in Hdel. simpl in Hdel.
+  pose proof (l_ppub _ _ _ _ _ _ _ _ (i_loc _ I _ _ Hx) Heqp) as Hpp.
+  apply I1_ext with (set_deleted (S (deleted s)) (goto i PFin x s)); try reflexivity.
+  unfold goto; I1_tac I i x Hx.
+Qed.
+
+Theorem I1_step s e s' : I1 s -> step s e = Some s' -> I1 s'.
+Proof.
+  intros I H. destruct e.
+  - eapply I1_complete; eauto.
+  - eapply I1_xchg; eauto.
+  - eapply I1_reg; eauto.
+  - eapply I1_free; eauto.
+  - eapply I1_strategy_steps; eauto; exact Logic.I.
+  - eapply I1_strategy_steps; eauto; exact Logic.I.
+  - eapply I1_strategy_steps; eauto; exact Logic.I.
+  - eapply I1_strategy_steps; eauto; exact Logic.I.
+  - eapply I1_strategy_steps; eauto; exact Logic.I.
+  - eapply I1_strategy_steps; eauto; exact Logic.I.
+  - eapply I1_strategy_steps; eauto; exact Logic.I.
+  - eapply I1_dec; eauto.
+  - eapply I1_dfree; eauto.
+  - eapply I1_publish; eauto.
+Qed.
